@@ -438,3 +438,27 @@ def sweep_rv(run, gen, focus, thorough):
                                       {"stream": "plug", "input": ["cl " + ob["header"] + " " + fs[ob["form"]].render(dict(ob["vals"]), runtime={ob["idx"]: str(x)}) for x in vs[:2]]})
                         break
     return stats
+
+
+def sweep_reg_translation(run, gen, focus):
+    """register obligations: rustc's evaluation of the generated expression vs its translation, every register number"""
+    obs = [o for o in gen["obligations"] if "skip" not in o]
+    stats = {"obligations": len(gen["obligations"]), "translated": len(obs), "runs": 0}
+    cases = [dict(body=o["header"] + " " + o["line"], vars=[("v", o["ty"])]) for o in obs]
+    ok, log = dyn.build(focus + "G", cases)
+    if not ok:
+        run.violation("broken-correspondence", {"kind": "harness-build", "harness": "dyn-register-obligations"}, "the generated crate of the register obligations does not build", {"log": log[-2000:]}, found_input=False)
+        return stats
+    reqs = [(i, [v]) for i in range(len(obs)) for v in range(32)]
+    for (i, vals), (st, b) in zip(reqs, dyn.run(focus + "G", reqs)):
+        stats["runs"] += 1
+        o = obs[i]
+        p, val, _ = o["ir"][True]
+        env = {"v": vals[0]}
+        want = None if rustexpr.ev(p, env) else rustexpr.ev(val, env).to_bytes(o["w"] // 8, "little")
+        got = b if st == "ok" else None
+        if want != got:
+            run.violation("broken-correspondence", {"kind": "translation-differs", "obligation": o["cmd"], "arch": o["arch"]},
+                          f"dynasm!(ops {cases[i]['body']}) with v = {vals[0]}: rustc gives {got.hex() if got is not None else 'panic'}, the translated expression {want.hex() if want is not None else 'panic'}",
+                          {"stream": "dyn", "case": cases[i], "values": vals}, found_input=False)
+    return stats
